@@ -156,6 +156,33 @@ theorem raw_frame (p : Str.Parser) (op : Op) (h : ∀ new dest, op ≠ .parse ne
     | rejected => rfl
     | panic s => rfl
 
+/-- No operation changes the buffer capacity, the request or the configuration. -/
+theorem applyOps_frame (ops : List Op) (q : Str.Parser) :
+    (applyOps q ops).cap = q.cap ∧ (applyOps q ops).request = q.request ∧
+      (applyOps q ops).maxConns = q.maxConns := by
+  induction ops generalizing q with
+  | nil => exact ⟨rfl, rfl, rfl⟩
+  | cons op t ih =>
+    rw [Str.applyOps_cons]
+    obtain ⟨a, b, c⟩ := ih (applyOp q op)
+    rw [a, b, c]
+    cases op with
+    | parse new dest =>
+      exact ⟨(Str.parse_frame q new dest).2.2.1, (Str.parse_frame q new dest).2.1,
+        (Str.parse_frame q new dest).2.2.2.1⟩
+    | consumeStream amt => exact ⟨rfl, rfl, rfl⟩
+    | compress => exact ⟨rfl, rfl, rfl⟩
+    | consumeOutput amt => exact ⟨rfl, rfl, rfl⟩
+    | setStream st =>
+      simp only [applyOp]
+      cases hr : q.setStream st with
+      | ok p' =>
+        rcases Str.setStream_ok_cases hr with ⟨-, rfl⟩ | ⟨-, rfl, -⟩
+        · exact ⟨rfl, rfl, rfl⟩
+        · exact ⟨rfl, rfl, rfl⟩
+      | rejected => exact ⟨rfl, rfl, rfl⟩
+      | panic s => exact ⟨rfl, rfl, rfl⟩
+
 /-- **The stream parser consumes a prefix.**  For every legal operation history from an invariant
 state, the old unparsed bytes followed by everything fed equals what was interpreted followed by
 what is still unparsed: nothing is lost, duplicated or reordered, whatever the interleaving of
@@ -232,28 +259,7 @@ theorem chain_suffix {p0 : Req.Parser} {cs : List Bytes} {r : Request} {sp : Str
   have hcap' : (applyOps (Str.Parser.fromParser (C03.feedAll p0 cs).1.cap r
       (C03.feedAll p0 cs).1.input (C03.feedAll p0 cs).1.maxConns) ops).cap =
         (C03.feedAll p0 cs).1.cap := by
-    have : ∀ (ops : List Op) (q : Str.Parser), (applyOps q ops).cap = q.cap := by
-      intro ops
-      induction ops with
-      | nil => intro q; rfl
-      | cons op t ih =>
-        intro q
-        rw [Str.applyOps_cons, ih]
-        cases op with
-        | parse new dest => exact (Str.parse_frame q new dest).2.2.1
-        | consumeStream amt => rfl
-        | compress => rfl
-        | consumeOutput amt => rfl
-        | setStream st =>
-          simp only [applyOp]
-          cases hr : q.setStream st with
-          | ok p' =>
-            rcases Str.setStream_ok_cases hr with ⟨-, rfl⟩ | ⟨-, rfl, -⟩
-            · rfl
-            · rfl
-          | rejected => rfl
-          | panic s => rfl
-    rw [this]; rfl
+    rw [(applyOps_frame ops _).1]; rfl
   obtain ⟨e1, e2, -, e4, e5, -, -⟩ := into_request_parser hsinv' (by rw [hcap']; exact hp1.2.2) hrp
   refine ⟨fed, c1, c2, hcs, ?_, hc1, ?_, by rw [e2, hcap', hcap1], e4, e5⟩
   · have hc2' : (C03.feedAll p0 cs).1.input ++ fedBytes ops = c2 ++ rp.input := by
